@@ -596,6 +596,8 @@ func runWallet(r *evid.Run, dir string, cs int64) {
 
 var issuing = []string{"(*Wallet).NewAddress", "(*Wallet).NewChangeAddress", "(*Wallet).CurrentAddress", "(*Wallet).CreateSimpleTx", "(*Wallet).txToOutputs", "(*Wallet).FundPsbt", "(*Wallet).txCreator"}
 
+var otherRaces int // reports that are not between two issuing calls (observation only, DESIGN O-8 / O-13)
+
 func raceReports() (int, string) {
 	files, _ := filepath.Glob(filepath.Join(evid.Root(), ".work", P, "race*"))
 	n := 0
@@ -626,6 +628,7 @@ func raceReports() (int, string) {
 			}
 			a, b2 := ep(parts[0]), ep(second)
 			if a == "" || b2 == "" || !strings.Contains(parts[0], "/repo/") || !strings.Contains(second, "/repo/") {
+				otherRaces++
 				continue // not a race between two issuing calls (DESIGN O-8)
 			}
 			k := a + "|" + b2
@@ -652,6 +655,7 @@ func main() {
 	if n, first := raceReports(); n > 0 {
 		r.Violation("c09:data-race", fmt.Sprintf("%d distinct data race(s) between address-issuing calls", n), "wallet", 0, map[string]any{"first_report": strings.Split(first, "\n")})
 	}
+	r.Hit("race-reports-not-between-issuing-calls", otherRaces)
 	r.Require("histories-linearizable", 15)
 	r.Require("issuing-calls-recorded", 1000)
 	os.Exit(r.Finish())
